@@ -42,9 +42,18 @@ def truthy_mark(v):
 class Built:
     """Real Python objects for a tree spec."""
 
-    def __init__(self, spec):
+    def __init__(self, spec, instrument=False):
         self.spec = spec
         self.journal = []
+        # instrument=True: every generated `_cp_dispatch` (custom ones and the functions `cherrypy.popargs`
+        # returns alike) sits behind a recording wrapper; each call appends
+        #   {'node': owner class index, 'self': bound object | None, 'fn': the wrapper, 'before': [..],
+        #    'after': [..] | None, 'ret': object, 'raised': exception class name | None,
+        #    'hkw': kwargs a callable popargs handler received | None}
+        # to `disp_log` (cleared per request by Runner.get).  This is how the oracle learns which segments a
+        # dispatcher consumed without any model of the dispatcher.
+        self.instrument = instrument
+        self.disp_log = []
         self.disp = {}        # id(function) -> descriptor dict (behaviour of a generated _cp_dispatch)
         self.keep = []
         self.objs = []
@@ -149,6 +158,32 @@ class Built:
     def _target(self, t):
         return None if t is None else self.objs[t]
 
+    def _recording(self, owner, inner):
+        """`inner` behind a wrapper that records the vpath before and after the call and what came back.
+        Called like the dispatcher calls it (`dispatch(vpath=iternames)`, self bound or not)."""
+        log = self.disp_log
+
+        def _cp_dispatch(*a, **kw):
+            vp = kw.get('vpath')
+            if not isinstance(vp, list) or len(a) > 1:
+                # not the dispatcher's `dispatch(vpath=iternames)` (an exposed `_cp_dispatch` called as a page
+                # handler, say): nothing to record
+                return inner(*a, **kw)
+            ent = {'node': owner, 'self': a[0] if a else None, 'fn': _cp_dispatch, 'before': list(vp),
+                   'after': None, 'ret': None, 'raised': None, 'hkw': None}
+            log.append(ent)
+            try:
+                r = inner(*a, **kw)
+            except BaseException as e:
+                ent['raised'] = type(e).__name__
+                ent['after'] = list(vp)
+                raise
+            ent['after'] = list(vp)
+            ent['ret'] = r
+            return r
+        _cp_dispatch._inner = inner
+        return _cp_dispatch
+
     def _make_dispatch(self, i, d):
         """Attach `_cp_dispatch` to class i.
 
@@ -161,10 +196,13 @@ class Built:
         cherrypy = cp()
         cls = self.classes[i]
         t = d['t']
-        names = ['p%d' % k for k in range(d.get('n', 0))]
+        names = list(d['names']) if d.get('names') is not None else ['p%d' % k for k in range(d.get('n', 0))]
         if t == 'popargs_cls':
             cherrypy.popargs(*names)(cls)
             f = cls.__dict__['_cp_dispatch']
+            if self.instrument:
+                f = self._recording(i, f)
+                cls._cp_dispatch = f
             self.disp[id(f)] = {'kind': 'popargs', 'names': names, 'h': None}
             self.keep.append(f)
         elif t == 'popargs_attr':
@@ -181,16 +219,22 @@ class Built:
                 desc = {'kind': 'popargs', 'names': names, 'h': ['obj', self.objs[h[1]]]}
             else:
                 target = self._target(h[1])
+                log = self.disp_log
 
                 def handler_fn(**parms):
+                    if log and log[-1].get('after') is None:
+                        log[-1]['hkw'] = dict(parms)
                     return target
                 f = cherrypy.popargs(*names, handler=handler_fn)
                 desc = {'kind': 'popargs', 'names': names, 'h': ['call', target]}
+            if self.instrument:
+                f = self._recording(i, f)
             cls._cp_dispatch = f
             self.disp[id(f)] = desc
             self.keep.append(f)
         elif t == 'custom':
             pop, add, ret = d.get('pop', 0), list(d.get('add', [])), d.get('ret')
+            mut = d.get('mut')
             target = self._target(ret[1]) if isinstance(ret, list) else None
 
             def _cp_dispatch(self, vpath):
@@ -198,15 +242,35 @@ class Built:
                     if vpath:
                         vpath.pop(0)
                 vpath[0:0] = add
+                # rewrites a dispatcher is not supposed to do (only the table form of the model covers them)
+                if mut == 'popback':
+                    if vpath:
+                        vpath.pop()
+                elif mut == 'lower':
+                    vpath[:] = [x.lower() for x in vpath]
+                elif mut == 'reverse':
+                    vpath.reverse()
+                elif mut == 'clear':
+                    del vpath[:]
+                elif mut == 'rename0':
+                    if vpath:
+                        vpath[0] = 'a'
+                elif mut == 'rename1':
+                    if len(vpath) > 1:
+                        vpath[1] = 'b'
                 if ret == 'self':
                     return self
                 if ret == 'peek':
                     return getattr(self, vpath[0], None) if vpath else None
+                if ret == 'popget':
+                    return getattr(self, vpath.pop(0), None) if vpath else self
                 return target
+            if self.instrument:
+                _cp_dispatch = self._recording(i, _cp_dispatch)
             if d.get('exp') is not None:
                 _cp_dispatch.exposed = d['exp']
             cls._cp_dispatch = _cp_dispatch
-            self.disp[id(_cp_dispatch)] = {'kind': 'custom', 'pop': pop, 'add': add,
+            self.disp[id(_cp_dispatch)] = {'kind': 'custom', 'pop': pop, 'add': add, 'mut': mut,
                                            'ret': ret if isinstance(ret, str) else ['fixed', target]}
             self.keep.append(_cp_dispatch)
         elif t == 'value':
@@ -368,11 +432,15 @@ class View:
             return 'A:%s:%s:%s' % ('+'.join(enc_text(n) for n in desc['names']) or '-', hs, self._opt(selfo, d))
         if not bound:
             return 'R'     # `_cp_dispatch(vpath=…)` without self: TypeError
+        if desc.get('mut'):
+            return 'U'     # not expressible as pop/add/ret: only the table form of the model covers it
         ret = desc['ret']
         if ret == 'self':
             r = 'S'
         elif ret == 'peek':
             r = 'K'
+        elif ret == 'popget':
+            r = 'G'
         else:
             r = 'F' + self._opt(ret[1], d)
         add = '+'.join(enc_text(a) for a in desc['add']) or '-'
@@ -460,18 +528,25 @@ class Runner:
         self.app.log.error_file = ''
         self.app.log.access_file = ''
 
-    def get(self, path, method='GET'):
+    def get(self, path, method='GET', query='', req_body=None, headers=None):
         self.built.journal[:] = []
+        self.built.disp_log[:] = []
         self.seen_path[:] = []
         self.requests[:] = []
         environ = {
-            'REQUEST_METHOD': method, 'SCRIPT_NAME': '', 'PATH_INFO': path, 'QUERY_STRING': '',
+            'REQUEST_METHOD': method, 'SCRIPT_NAME': '', 'PATH_INFO': path, 'QUERY_STRING': query,
             'SERVER_NAME': 'localhost', 'SERVER_PORT': '80', 'SERVER_PROTOCOL': 'HTTP/1.1',
             'CONTENT_LENGTH': '0', 'wsgi.version': (1, 0), 'wsgi.url_scheme': 'http',
             'wsgi.input': io.BytesIO(b''), 'wsgi.errors': io.StringIO(), 'wsgi.multithread': False,
             'wsgi.multiprocess': False, 'wsgi.run_once': False, 'wsgi.url_encoding': 'utf-8',
             'REMOTE_ADDR': '127.0.0.1', 'HTTP_HOST': 'localhost',
         }
+        if req_body is not None:
+            environ['CONTENT_LENGTH'] = str(len(req_body))
+            environ['CONTENT_TYPE'] = 'application/x-www-form-urlencoded'
+            environ['wsgi.input'] = io.BytesIO(req_body)
+        for k, v in (headers or {}).items():
+            environ[k] = v
         got = {}
 
         def start_response(status, headers, exc_info=None):
@@ -496,7 +571,8 @@ class Runner:
             import gc
             gc.collect()
             return {'status': 0, 'ran': [[p, a] for p, a, kw in self.built.journal], 'kwargs': [], 'allow': None,
-                    'path_info': self.seen_path[0] if self.seen_path else None, 'body': b'', 'hang': True}
+                    'path_info': self.seen_path[0] if self.seen_path else None, 'body': b'', 'hang': True,
+                    'disp_log': list(self.built.disp_log)}
         allow = None
         for k, v in got.get('headers', []):
             if k.lower() == 'allow':
@@ -509,6 +585,7 @@ class Runner:
             'path_info': self.seen_path[0] if self.seen_path else None,
             'body': body,
             'headers': list(got.get('headers', [])),
+            'disp_log': list(self.built.disp_log),
         }
 
 
